@@ -81,6 +81,20 @@ OutOK(e, dom) ==
   /\ \A t \in DOMAIN e.out : e.out[t][2] = cfg.sb                      \* configured length
   /\ e.out = e.ref                                                      \* = fresh reference codec / the originals
 
+\* nth / skip / step_by / last / count on fresh iterators agree with the view: ys = the exposed indexes, ascending
+ProtoOK(e, dom) ==
+  Has(e, "proto") =>
+    LET ys == SetToSortSeq(dom, <)  n == Len(ys)  p == e.proto
+        At(k) == IF k < n THEN ys[k+1] ELSE -1 IN
+    /\ ~Has(p, "panic")
+    /\ \A t \in DOMAIN p.nth : p.nth[t][2] = At(p.nth[t][1])
+    /\ p.skip1 = (IF n = 0 THEN 0 ELSE n - 1)
+    /\ p.cnt = n
+    /\ p.last = (IF n = 0 THEN -1 ELSE ys[n])
+    /\ p.second = At(1)
+    /\ \A t \in DOMAIN p.step2 : p.step2[t] = At(2 * (t - 1))
+    /\ Len(p.step2) = (IF (n + 1) \div 2 < 8 THEN (n + 1) \div 2 ELSE 8)
+
 Step(e) ==
   CASE e.ev = "new"          -> NewObj(e.kind, e.k, e.r, e.sb) /\ RetOK(e) /\ SnapOK(e)
     [] e.ev = "reset"        -> Reset(e.k, e.r, e.sb) /\ RetOK(e) /\ SnapOK(e) /\ AllocOK(e) /\ CapacityOK(e)
@@ -93,7 +107,7 @@ Step(e) ==
     [] e.ev = "query"        -> /\ Query(e.index) /\ e.ret.some = last'.some /\ AllocOK(e)
                                 /\ (e.ret.some => OutOK(e, {e.index}))
     [] e.ev = "iter"         -> /\ IterAll /\ e.ret.count = Cardinality(last'.yields) /\ e.ret.again = 0
-                                /\ OutOK(e, last'.yields)
+                                /\ OutOK(e, last'.yields) /\ ProtoOK(e, last'.yields)
     [] e.ev = "drop"         -> Drop /\ SnapOK(e)
     [] OTHER                 -> FALSE
 
